@@ -38,3 +38,16 @@ package tchannel
 //@   label refusal-is-queued-before-the-exchange-is-released
 //@   atcall shutdown errAttempts(c) == old(errAttempts(c)) + 1
 //@   property C07
+
+// A relayed call that times out (or is failed) in the relay still gets its
+// result: on the originating side the error frame is queued BEFORE the pending
+// count is released -- releasing the last pending call of a draining
+// connection closes it.
+//@ func (r *Relayer) timeoutRelayItem(items *relayItems, id uint32, isOriginator bool)
+//@   label timeout-error-is-queued-before-the-pending-count-is-released
+//@   atcall decrementPending isOriginator ==> errAttempts(r.conn) == old(errAttempts(r.conn)) + 1
+//@   property C07
+//@ func (r *Relayer) failRelayItem(items *relayItems, id uint32, reason string, err error)
+//@   label failure-error-is-queued-before-the-pending-count-is-released
+//@   atcall decrementPending item.isOriginator && reason != _relayErrorSourceConnSlow ==> errAttempts(r.conn) == old(errAttempts(r.conn)) + 1
+//@   property C07
